@@ -518,7 +518,6 @@ Error RACFGBuilder::on_instruction(InstNode* inst, InstControlFlow& cf, RAInstBu
           }
 
           case Inst::kIdAdd:
-          case Inst::kIdAnd:
           case Inst::kIdRol:
           case Inst::kIdRor:
           case Inst::kIdSar:
